@@ -1,8 +1,8 @@
 (* C15 - property theorems only.  Definitions are in Model.v; the tables src3_*, src2_* and the loop
    guards are generated from utils.py / intvol.pyx on every run. *)
 From Coq Require Import ZArith List Bool Lia.
-From NV.Generated Require Import IntvolTables.
-From NV.C15 Require Import Model Proofs Proofs2 Proofs3 Proofs4.
+From NV.Generated Require Import IntvolTables RftFlags.
+From NV.C15 Require Import Model Proofs Proofs2 Proofs3 Proofs4 Proofs5.
 Import ListNotations.
 Open Scope Z_scope.
 
@@ -111,6 +111,27 @@ Theorem lips3d_mu3_gram_determinant : forall ox oy oz dx dy dz,
   length src3_d4 = 6%nat /\ Forall (tet_v2_ok (ox, oy, oz) (dx, dy, dz) ((dx * dy * dz) ^ 2)) src3_d4.
 Proof. intros. split; [reflexivity|apply mu3_gram]. Qed.
 Print Assumptions lips3d_mu3_gram_determinant.
+
+(* (10) rft.py.  IntrinsicVolumes.__mul__ (model iv_mul) is the product of the generating polynomials, of full length *)
+Theorem intrinsic_volumes_mul_is_polynomial_product : forall a b x,
+  peval (iv_mul a b) x = peval a x * peval b x /\
+  (a <> [] -> b <> [] -> (length (iv_mul a b) + 1 = length a + length b)%nat).
+Proof. intros a b x. split; [apply iv_mul_eval|apply iv_mul_length]. Qed.
+Print Assumptions intrinsic_volumes_mul_is_polynomial_product.
+
+(* (11) With the operator methods and the statements found in the CURRENT rft.py (Generated/RftFlags.v), evaluating an
+   ECcone - with the default or an explicit search region - leaves mu, search and product as they were, so any sequence of
+   evaluations uses the same effective search region as the first one. *)
+Theorem rft_call_preserves_stored_regions : forall st e1 e2,
+  snd (call_src st e1) = st /\ fst (call_src (snd (call_src st e1)) e2) = fst (call_src st e2).
+Proof. intros st e1 e2. split; [apply call_pure|apply call_repeat]. Qed.
+Print Assumptions rft_call_preserves_stored_regions.
+
+(* ... which fails as soon as IntrinsicVolumes gets an in-place `__imul__` while `search = self.search; search *= self.product` stays *)
+Theorem rft_call_with_inplace_mul_refuted : exists st,
+  fst (call_regions true true true (snd (call_regions true true true st None)) None) <> fst (call_regions true true true st None).
+Proof. exact call_imul_refuted. Qed.
+Print Assumptions rft_call_with_inplace_mul_refuted.
 
 (* non-vacuity *)
 Definition hollow3 : pt -> bool := fun p => negb (pt_eqb p (1, 1, 1)).
